@@ -74,10 +74,10 @@ def run(ctx):
         g = built.grader
         canon_lists = g.config['answers']
         for _ in range(ctx.scale(3, 6)):
-            inputs = [rng.choice(GG.INPUTS[:8]) for _ in range(n)]
+            inputs = [rng.choice(GG.INPUTS) for _ in range(n)]
             if rng.random() < 0.12:
                 # wrong number of inputs: must be refused (ConfigError), never graded
-                bad = inputs + [rng.choice(GG.INPUTS[:8])] * rng.randint(1, 2) if rng.random() < 0.6 else inputs[:-1]
+                bad = inputs + [rng.choice(GG.INPUTS)] * rng.randint(1, 2) if rng.random() < 0.6 else inputs[:-1]
                 kind, val = GG.run_impl(lambda: g.check(None, bad))
                 if not (kind == 'err' and val[1] == 'ConfigError'):
                     ctx.violation('wrong number of inputs (%d for %d answers) was not refused with a ConfigError' % (len(bad), n),
@@ -151,7 +151,7 @@ def run(ctx):
                     d = sgb.desc['cfg']['delimiter']
                     inp.append(d.join(rng.choice(GG.INPUTS[:6]) for _ in range(rng.randint(1, 4))))
                 else:
-                    inp.append(rng.choice(GG.INPUTS[:8]))
+                    inp.append(rng.choice(GG.INPUTS))
             kind, val = GG.run_impl(lambda: g.check(None, inp))
             if kind == 'out':
                 # oracle: per answer list, entry i = subgrader_i.check(answer_i, input_i); the reported list has maximal total
@@ -210,7 +210,7 @@ def run(ctx):
             ctx.count('config_rejected:' + type(e).__name__); continue
         g = built.grader
         for _ in range(ctx.scale(3, 6)):
-            inp = [rng.choice(GG.INPUTS[:8]) for _ in grouping]
+            inp = [rng.choice(GG.INPUTS) for _ in grouping]
             if rng.random() < 0.1:
                 inp = inp + ['a'] if rng.random() < 0.5 else inp[:-1]
             kind, val = GG.run_impl(lambda: g.check(None, inp))
